@@ -1,6 +1,7 @@
 import Dhlldv.Prim
 import Dhlldv.Gen.Dispatch
 import Dhlldv.Spec.Select
+import Dhlldv.Spec.Graded
 
 /-! Line-protocol dispatcher over the hand-written Spec models. -/
 namespace Spec
@@ -22,6 +23,16 @@ def dispatch (op : String) (a : Array String) : Option String :=
     some (match t.lookup (Gen.fOfBits a[4 + 2 * n]!) with
       | some v => Gen.bitsOf v
       | none => "IndexError")
+  | "spec.graded" =>
+    -- spec.graded <cvt> <sf> <sq> vls Dp eps nu rhol rhos Cv <n> f1 d1 … fn dn
+    if a.size < 11 then none else
+    let n := (a[10]!).toNat!
+    if a.size != 11 + 2 * n then none else
+    let gsd := (List.range n).map fun i => (Gen.fOfBits a[11 + 2 * i]!, Gen.fOfBits a[12 + 2 * i]!)
+    let f := fun i => Gen.fOfBits a[i]!
+    let R := Spec.erhgGraded (α := Float) (Gen.bOf a[0]!) (Gen.bOf a[1]!) (Gen.bOf a[2]!) gsd (f 3) (f 4) (f 5) (f 6) (f 7) (f 8) (f 9)
+    let scal := [R.im_x, R.X, R.rhox, R.Cv_x, R.Cv_r, R.mu_x, R.nu_x, R.Rsd_x, R.erhg_x, R.erhg, R.il]
+    some (" ".intercalate ((scal ++ R.ims ++ R.dxs ++ R.fracs).map Gen.bitsOf))
   | _ => none
 
 end Spec
